@@ -79,7 +79,11 @@ package proto
 //@ interface ColInput.WriteColumn(c, w)
 //@   requires w != nil && wRI(w)
 //@   modifies w.bufOffset, w.vec, w.buf.Buf
-//@   ensures wRI(w) && appendsOnly(w.buf)
+//@   ensures wRI(w) && appendsOnly(w.buf) && uvStable(w.buf) && len(w.vec) >= old(len(w.vec))
+//@ interface ColumnOf.WriteColumn(c, w)
+//@   requires w != nil && wRI(w)
+//@   modifies w.bufOffset, w.vec, w.buf.Buf
+//@   ensures wRI(w) && appendsOnly(w.buf) && uvStable(w.buf) && len(w.vec) >= old(len(w.vec))
 //@ -- Prepare rebuilds derived encoder state; the logical row count is what the caller appended
 //@ interface Preparable.Prepare(c) (err)
 //@ -- a result sink: the block's row/column counts it is handed were validated against the caps
@@ -211,6 +215,15 @@ package proto
 //@   assert len(b.Buf) == old(len(b.Buf)) + 8 * len(c.Offsets) {keys-follow-the-offsets-immediately}
 //@ callsite ColumnOf.EncodeColumn#2
 //@   assert len(b.Buf) >= old(len(b.Buf)) + 8 * len(c.Offsets) {values-after-the-keys}
+
+//@ contract (c ColMap) WriteColumn(w) props(C09,C14)
+//@   requires w != nil && wRI(w) && c.Keys != nil && c.Values != nil
+//@   modifies w.bufOffset, w.vec, w.buf.Buf
+//@   ensures wRI(w) && len(w.buf.Buf) >= old(len(w.buf.Buf)) && len(w.vec) >= old(len(w.vec))
+//@   ensures len(c.Offsets) == 0 ==> len(w.vec) == old(len(w.vec)) && len(w.buf.Buf) == old(len(w.buf.Buf)) {nothing-for-an-empty-column}
+//@   ensures len(c.Offsets) > 0 ==> len(w.vec) > old(len(w.vec)) || len(w.buf.Buf) >= old(len(w.buf.Buf)) + 8 * len(c.Offsets) {offsets-written-for-a-non-empty-column}
+//@ callsite (ColUInt64).WriteColumn
+//@   assert len(c.Offsets) > 0 {offsets-first}
 
 //@ contract (c ColArr) RowAppend(i, target) (out) props(C06)
 //@   requires c.Data != nil && wfArr(c) && 0 <= i && i < len(c.Offsets)
@@ -474,6 +487,11 @@ package proto
 //@   invariant e.base == ColumnTypeEnum16 ==> len(e.raw16) == rangeindex + 1
 //@   invariant rangeindex >= 0 ==> e.base == ColumnTypeEnum8 || e.base == ColumnTypeEnum16
 
+//@ contract (e *ColEnum) Reset() props(C06,C16)
+//@   requires e != nil
+//@   modifies e.raw8, e.raw16, e.Values
+//@   ensures len(e.Values) == 0 {no-values-after-reset}
+//@   ensures len(e.raw8) == 0 || len(e.raw16) == 0 {the-active-raw-column-is-emptied}
 //@ contract (e *ColEnum) Rows() (n) props(C01,C06,C16)
 //@   requires e != nil
 //@   ensures n == len(e.Values)
@@ -531,6 +549,10 @@ package proto
 //@   invariant len(buf.Buf) >= old(len(buf.Buf)) && forall k in 0..old(len(buf.Buf)) :: buf.Buf[k] == old(buf.Buf[k])
 //@   invariant rangeindex >= 0 ==> input[rangeindex].Data.nrows == b.Rows {each-encoded-column-has-the-block-row-count}
 
+//@ -- blockHeaderAt: the header Block.EncodeAware writes (optional BlockInfo from revision 51903,
+//@ -- columns, rows) lies at position p of array a
+//@ spec func blockHeaderAt(b Val, version Int, a Bytes, p Int) Bool = (version >= 51903 ==> uvAt(a, p, 1) && uvAt(a, p + 2, 2) && uvAt(a, p + 7, 0)) && uvAt(a, p + ite(version >= 51903, 8, 0), u64(b.Columns)) && uvAt(a, p + ite(version >= 51903, 8, 0) + uvsize(u64(b.Columns)), u64(b.Rows))
+
 //@ contract (b Block) EncodeBlock(buf, version, input) (err) props(C01,C02)
 //@   requires buf != nil
 //@   modifies buf.Buf, all(input)
@@ -542,6 +564,7 @@ package proto
 //@   requires w != nil && wRI(w)
 //@   modifies w.bufOffset, w.vec, w.buf.Buf, all(input)
 //@   ensures wRI(w) {writer-invariant-kept}
+//@   ensures blockHeaderAt(b, version, arrayof(w.buf.Buf), offset(w.buf.Buf) + old(len(w.buf.Buf))) && old(len(w.buf.Buf)) + ite(version >= 51903, 8, 0) + uvsize(u64(b.Columns)) + uvsize(u64(b.Rows)) <= len(w.buf.Buf) [C02,C14] {block-header-staged-first-as-EncodeAware-writes-it}
 //@ -- the same per-column order as EncodeRawBlock: row-count check, header, (Prepare), nothing more
 //@ -- for an empty column, then state, then data
 //@ callsite (*Writer).ChainBuffer#2
@@ -554,6 +577,7 @@ package proto
 //@   modifies w.bufOffset, w.vec, w.buf.Buf, all(input)
 //@   invariant -1 <= rangeindex && rangeindex < len(input) && wRI(w)
 //@   invariant rangeindex >= 0 ==> input[rangeindex].Data.nrows == b.Rows {each-written-column-has-the-block-row-count}
+//@   invariant blockHeaderAt(b, version, arrayof(w.buf.Buf), offset(w.buf.Buf) + old(len(w.buf.Buf))) && old(len(w.buf.Buf)) + ite(version >= 51903, 8, 0) + uvsize(u64(b.Columns)) + uvsize(u64(b.Rows)) <= len(w.buf.Buf)
 
 // ---------------------------------------------------------------------------
 // Remaining decoders: thin safety contracts (C06) - weakest preconditions on the input bytes,
